@@ -267,7 +267,7 @@ void EGLPNUM_TYPENAME_ILLratio_pII_test (
 	int dir,
 	EGLPNUM_TYPENAME_ratio_res * rs)
 {
-	int i, k, indx, col, ecol;
+	int i, k, indx, col, ecol, kmin = -1;
 	EGLPNUM_TYPE *x, *l, *u, t_max, ayi_max, yi_max, ay_ij, y_ij, t_i, t_z;
 	EGLPNUM_TYPE *pivtol = &(lp->tol->pivot_tol);
 	EGLPNUM_TYPE *pftol = &(lp->tol->pfeas_tol);
@@ -329,6 +329,7 @@ void EGLPNUM_TYPENAME_ILLratio_pII_test (
 		{
 			/*HHH tind = i; yval = fabs (y_ij); tval = t_i - pftol/fabs(y_ij); */
 			EGLPNUM_TYPENAME_EGlpNumCopy (t_max, t_i);
+			kmin = k;
 		}
 	}
 	/* we use yi_max as temporal variable here */
@@ -384,7 +385,10 @@ void EGLPNUM_TYPENAME_ILLratio_pII_test (
 				EGLPNUM_TYPENAME_EGlpNumCopyDiffRatio (t_i, *u, *x, ay_ij);
 		}
 
-		if (EGLPNUM_TYPENAME_EGlpNumIsLeq (t_i, t_max))
+		/* the row that defined t_max always qualifies: in truncating arithmetic
+		 * (mpf) adding a negligible tolerance can leave t_max below that row's
+		 * own ratio, and then no row at all would pass */
+		if (k == kmin || EGLPNUM_TYPENAME_EGlpNumIsLeq (t_i, t_max))
 		{
 			if (EGLPNUM_TYPENAME_EGlpNumIsLess (ayi_max, ay_ij))
 			{
@@ -641,7 +645,7 @@ void EGLPNUM_TYPENAME_ILLratio_dII_test (
 	int lvstat,
 	EGLPNUM_TYPENAME_ratio_res * rs)
 {
-	int j, k, indx;
+	int j, k, indx, kmin = -1;
 	int col, ecol;
 	EGLPNUM_TYPE *zAj, azAj, az_max, x, y, t_j, z_max, t_max, t_z;
 	EGLPNUM_TYPE *dftol = &(lp->tol->dfeas_tol);
@@ -696,7 +700,10 @@ void EGLPNUM_TYPENAME_ILLratio_dII_test (
 			continue;
 
 		if (EGLPNUM_TYPENAME_EGlpNumIsLess (t_j, t_max))
+		{
 			EGLPNUM_TYPENAME_EGlpNumCopy (t_max, t_j);
+			kmin = k;
+		}
 	}
 
 	if (EGLPNUM_TYPENAME_EGlpNumIsLeq (EGLPNUM_TYPENAME_INFTY, t_max))
@@ -730,7 +737,9 @@ void EGLPNUM_TYPENAME_ILLratio_dII_test (
 		if (EGLPNUM_TYPENAME_EGlpNumIsGreatZero (y) || lp->vstat[col] == STAT_ZERO)
 			EGLPNUM_TYPENAME_EGlpNumCopyFrac (t_j, x, y);
 
-		if (EGLPNUM_TYPENAME_EGlpNumIsLeq (t_j, t_max) && (EGLPNUM_TYPENAME_EGlpNumIsLess (az_max, azAj)))
+		/* the column that defined t_max always qualifies (see pII test) */
+		if ((k == kmin || EGLPNUM_TYPENAME_EGlpNumIsLeq (t_j, t_max)) &&
+				(EGLPNUM_TYPENAME_EGlpNumIsLess (az_max, azAj)))
 		{
 			EGLPNUM_TYPENAME_EGlpNumCopy (z_max, *zAj);
 			EGLPNUM_TYPENAME_EGlpNumCopy (az_max, azAj);
